@@ -656,16 +656,18 @@ func (l *lexer) scan() {
 	close(l.tokens)
 }
 
-// scanCodeBlock scans a tab or four spaces that start a Markdown code block.
-// It returns the next position and the next context. If there is no tab or
-// spaces, it returns p and the Markdown context.
+// scanCodeBlock scans a tab or four spaces that start a Markdown code block,
+// updating l.column. It returns the next position and the next context. If
+// there is no tab or spaces, it returns p and the Markdown context.
 func (l *lexer) scanCodeBlock(p int) (int, ast.Context) {
 	if p < len(l.src) {
 		switch l.src[p] {
 		case '\t':
+			l.column++
 			return p + 1, ast.ContextTabCodeBlock
 		case ' ':
 			if p+3 < len(l.src) && l.src[p+1] == ' ' && l.src[p+2] == ' ' && l.src[p+3] == ' ' {
+				l.column += 4
 				return p + 4, ast.ContextSpacesCodeBlock
 			}
 		}
